@@ -92,6 +92,25 @@ STEADY_CONSTRUCTS = {
 }
 TREE = "type rec Tree = Leaf(float) | Node(Tree, Tree)\nfn total(t:Tree)->float{ match t { Leaf(v) => v, Node(l, r) => 1.0 } }\n"
 LIST = "type rec L = Nil | Cons(float, L)\n"
+# constructs of which only the second half of the property is asked (they run to the end, and no closure or heap object is
+# used after it was released): on the pinned tree the VM keeps a box for most lists handed to a function, so their counts grow
+SUM = "type rec L = Nil | Cons(float, L)\nfn sum(l:L)->float{ match l { Nil => 0.0, Cons(h, t) => h + sum(t) } }\n"
+RUNS_CONSTRUCTS = {
+    # destructuring of containers that hold boxed values: named, with placeholders, in a scope that ends before the
+    # container's last use
+    "tuple_destructure_named": SUM + "fn dsp(){\n  let p = (Cons(1.0, Cons(2.0, Nil)), 0.5)\n  let (l, g) = p\n  sum(l) * g\n}\n",
+    "tuple_placeholder_scoped": SUM + "fn dsp(){\n  let p = (Cons(1.0, Cons(2.0, Nil)), 0.5)\n  let g = { let (_, gain) = p\n gain }\n"
+                                "  let (l, _) = p\n  sum(l) * g\n}\n",
+    "tuple_placeholder_twice": SUM + "fn dsp(){\n  let p = (Cons(1.0, Nil), 0.5)\n  let a = { let (_, x) = p\n x }\n  let b = { let (_, y) = p\n y }\n"
+                               "  let (l, _) = p\n  sum(l) + a + b\n}\n",
+    "record_placeholder_scoped": SUM + "fn dsp(){\n  let r = {items = Cons(1.0, Cons(2.0, Nil)), gain = 0.5}\n  let g = { let {items = _, gain = k} = r\n k }\n"
+                                 "  sum(r.items) * g\n}\n",
+    "nested_tuple_placeholder_scoped": SUM + "fn dsp(){\n  let p = ((Cons(1.0, Nil), 2.0), 0.5)\n  let g = { let ((_, m), _) = p\n m }\n"
+                                       "  let ((l, _), k) = p\n  sum(l) * g + k\n}\n",
+    "tuple_placeholder_in_function": SUM + "fn gain_of(p:(L, float))->float{\n  let (_, g) = p\n  g\n}\nfn dsp(){\n  let p = (Cons(1.0, Nil), 0.5)\n"
+                                     "  let g = gain_of(p)\n  let (l, _) = p\n  sum(l) * g\n}\n",
+    "variant_rebuilt_each_sample": SUM + "fn dsp(){\n  let a = Cons(now, Cons(1.0, Nil))\n  let b = { let c = Cons(2.0, a)\n sum(c) }\n  sum(a) + b\n}\n",
+}
 # recursive variant values: steady on the VM (the WASM host keeps them: pinned fixtures type_recursive_*.mmm)
 STEADY_VM_ONLY = {"variant_flat_tree", "variant_nested_tree_shared", "variant_nested_tree_shared_twice", "variant_list_grown",
                   "variant_list_one", "variant_in_function"}
@@ -129,6 +148,8 @@ def run(tier):
         corpus.append((os.path.basename(f), open(f).read(), f, False))
     for name, src in STEADY_CONSTRUCTS.items():
         corpus.append((f"steady:{name}", src, None, False))
+    for name, src in RUNS_CONSTRUCTS.items():
+        corpus.append((f"runs:{name}", src, None, False))
     pins = {}
     d = os.path.join(vlib.VERIF, "findings", "C12")
     if os.path.isdir(d):
@@ -157,11 +178,18 @@ def run(tier):
         for be in ("vm", "wasm"):
             b = out[be]
             if b.get("status") != "ok" or len(b.get("counts", [])) < N2:
+                if str(req["id"]).startswith(("steady:", "runs:")) and b.get("status") in ("panic", "dsp_error"):
+                    # the constructs of the tables run to the end on the pinned tree: failing at run time is the use
+                    # of something that is gone (or C03's matter - either way not what this program does)
+                    chk.violation(f"{be}: {req['id']}: fails at run time ({b.get('status')}: {str(b.get('msg'))[:200]} at sample "
+                                  f"{b.get('at')})\n{req['src'][:1000]}", dict(case, backend=be), key=vlib.canon_key(req["src"] + "|" + be))
                 continue
             samples = sample_list(b, be)
             in_pinned_class = gen_flag[req["id"]] and creates_closures_in_dsp(req["src"])
             ask_steady = not (be == "vm" and in_pinned_class)
             if be == "wasm" and str(req["id"]).startswith("steady:") and str(req["id"])[7:] in STEADY_VM_ONLY:
+                ask_steady = False
+            if str(req["id"]).startswith("runs:"):
                 ask_steady = False
             rid = f"{req['id']}|{be}"
             records.append({"id": rid, "samples": samples, "steady": [N1 + 1, N2 + 1] if ask_steady else [0, 0]})
